@@ -15,5 +15,6 @@ b = s.index('\n\n', a)
 s = s[:a] + '| id | change | needs | result |\n|---|---|---|---|\n' + '\n'.join(rows) + s[b:]
 open(p, 'w').write(s)
 n = len(rows); det = sum(1 for d in glob.glob(os.path.join(ROOT, 'seeded', '*_*')) if json.load(open(os.path.join(d, 'meta.json'))).get('detected'))
-late = sum(1 for d in glob.glob(os.path.join(ROOT, 'seeded', '*_*')) if 'note' in json.load(open(os.path.join(d, 'meta.json'))) or 'added after' in json.load(open(os.path.join(d, 'meta.json'))).get('detected_by') or '')
+metas = [json.load(open(os.path.join(d, 'meta.json'))) for d in glob.glob(os.path.join(ROOT, 'seeded', '*_*'))]
+late = sum(1 for m in metas if m.get('detected') and ('note' in m or 'added after' in (m.get('detected_by') or '')))
 print('%d seeds, %d detected, %d only after strengthening' % (n, det, late))
